@@ -59,15 +59,20 @@ IP4(proto, src, dst, n, opt) ==
 IP6(proto, src, dst, n) == <<96, 0, 0, 0, n \div 256, n % 256, ProtoNum(proto), 64>> \o src \o dst
 A4 == << <<1, 2, 3, 4>>, <<5, 6, 7, 8>>, <<255, 255, 255, 255>>, <<0, 0, 0, 0>> >>
 A6(x) == <<>> \o [i \in 1..16 |-> IF x = 0 THEN 0 ELSE IF x = 1 THEN 255 ELSE (i * 17 + x) % 256]
-L4Hdr(proto, n, alt) ==       \* header of the checksummed layer, checksum field zero; n = payload length
+\* (rt: GRE with the C and R bits and one source route entry of ONE octet - a 17-octet header, so that the payload
+\* starts at an odd offset of the checksummed region; a sender or receiver that sums header and payload as two
+\* separately padded chunks is wrong exactly there)
+L4Hdr(proto, n, alt, rt) ==   \* header of the checksummed layer, checksum field zero; n = payload length
   CASE proto = "tcp"   -> <<0, 1, 0, 2, 255, 255, 255, 255, 0, 0, 0, 0, 80, 16, 1, 0, 0, 0, 0, 0>>
     [] proto = "udp"   -> <<0, 1, 0, 2, (8 + n) \div 256, (8 + n) % 256, 0, 0>>
     [] proto = "icmp4" -> IF alt THEN <<0, 0, 0, 0, 0, 0, 0, 0>> ELSE <<8, 0, 0, 0, 18, 52, 0, 1>>
     [] proto = "icmp6" -> <<128, 0, 0, 0>>
-    [] proto = "gre"   -> IF alt THEN <<0, 0, 136, 181>> ELSE <<128, 0, 136, 181, 0, 0, 0, 0>>
+    [] proto = "gre"   -> IF alt THEN <<0, 0, 136, 181>>
+                          ELSE IF rt THEN <<192, 0, 136, 181, 0, 0, 0, 0, 8, 0, 0, 1, 17, 0, 0, 0, 0>>
+                          ELSE <<128, 0, 136, 181, 0, 0, 0, 0>>
     [] OTHER           -> <<>>
-Raw(proto, v, n, alt, a) ==
-  LET l4 == L4Hdr(proto, n, alt) \o (IF alt /\ proto = "icmp4" THEN [i \in 1..n |-> 0] ELSE Bytes(n, a + 1))
+Raw(proto, v, n, alt, a, rt) ==
+  LET l4 == L4Hdr(proto, n, alt, rt) \o (IF alt /\ proto = "icmp4" THEN [i \in 1..n |-> 0] ELSE Bytes(n, a + 1))
   IN IF proto = "ip4" THEN IP4("udp", A4[1], A4[2], 0, alt) \o <<>>
      ELSE IF v = 4 THEN IP4(proto, A4[1 + a], A4[2 + a], Len(l4), FALSE) \o l4
      ELSE IP6(proto, A6(a), A6(a + 2), Len(l4)) \o l4
@@ -85,7 +90,8 @@ Steer(proto, v, p, off, T) ==
            c0 == Computed(proto, v, p0, off)
        IN IF proto # "ip4" /\ (o = FieldOff(proto, off) \/ o < off + MinHdr(proto)) THEN p
           ELSE SetW(p0, o, (c0 - T + 65535) % 65535)
-Specs == {<<c, n, alt, a, T>> \in Combos \X (0..MaxPay) \X BOOLEAN \X {0, 2} \X Targets :
+Specs == {<<c, n, alt, a, T, rt>> \in Combos \X (0..MaxPay) \X BOOLEAN \X {0, 2} \X Targets \X BOOLEAN :
+             /\ (rt => c[1] = "gre" /\ ~alt)
              /\ (alt => c[1] \in {"icmp4", "gre", "ip4"})
              /\ (c[1] = "ip4" => n = 0 /\ a = 0)
              /\ (alt /\ c[1] = "icmp4" => T = -1 /\ a = 0)
@@ -94,7 +100,7 @@ Off(c, alt) == IF c[1] = "ip4" THEN 0 ELSE IF c[2] = 4 THEN 20 ELSE 40
 \* (built in stages through set comprehensions: a bound variable holds a concrete value, whereas an operator
 \* argument is re-evaluated by TLC on every use)
 Raws == {[proto |-> s[1][1], v |-> s[1][2], off |-> Off(s[1], s[3]), T |-> s[5],
-          p |-> Raw(s[1][1], s[1][2], s[2], s[3], s[4])] : s \in Specs}
+          p |-> Raw(s[1][1], s[1][2], s[2], s[3], s[4], s[6])] : s \in Specs}
 Steered == {[r EXCEPT !.p = Steer(r.proto, r.v, r.p, r.off, r.T)] : r \in Raws}
 Sent == {[proto |-> r.proto, v |-> r.v, off |-> r.off, p |-> IdealSer(r.proto, r.v, r.p, r.off)] : r \in Steered}
 Pkts == {IF r.v = 4 THEN [r EXCEPT !.p = IdealSer("ip4", 4, r.p, 0)] ELSE r : r \in Sent}
@@ -166,6 +172,7 @@ ASSUME \E q \in Pkts : q.proto = "udp" /\ q.v = 6 /\ Stored("udp", q.p, q.off) =
 ASSUME \E q \in Pkts : q.proto = "tcp" /\ Stored("tcp", q.p, q.off) = 0
 ASSUME \E q \in Pkts : q.proto = "icmp4" /\ Stored("icmp4", q.p, q.off) = 65535
 ASSUME \E q \in Pkts : q.proto = "gre" /\ ~HasField("gre", q.p, q.off)
+ASSUME \E q \in Pkts : q.proto = "gre" /\ B(q.p, q.off) = 192 /\ L4Len(q.v, q.p, q.off) = 19
 
 \* fold / sum: the transcribed Go loop agrees with the reference on boundary accumulators below 2^31
 \* (Apalache covers all 2^32) and on all short byte strings over a boundary alphabet
